@@ -4,12 +4,7 @@ open Common
 
 let page = 4096
 
-let checksum (l : z list) : int =
-  List.fold_left (fun h x -> ((h lxor ((int_of_z x) land 255)) * 16777619) mod 1000000007) 2166136261 l
-
-let bytes_obs (l : z list) =
-  if List.length l <= 256 then "q=" ^ hex_of_zlist l
-  else Printf.sprintf "q=h%d:%d" (List.length l) (checksum l)
+let bytes_obs (l : z list) = "q=" ^ bytes_repr l
 
 let tail (o : mobs) =
   Printf.sprintf " used=%s free=%s full=%d size=%s" (string_of_z o.mo_used) (string_of_z o.mo_free)
